@@ -45,6 +45,7 @@ def build_streams(rng, tier):
         Stream("exhaustive-small", exhaustive_small_lines(), h, **kw),
         Stream("structured+random", classify_lines(rng, tier), h, **kw),
         Stream("name-consistency-any-n", big, h, **kw),
+        history_stream("C09", rng, tier),
     ]
 
 RULE = ("same generator as C01 (n<=5, thorough 6) with closure size from the Lean-verified checker; a second stream on up to 10 (thorough 14) "
